@@ -240,7 +240,7 @@ func init() {
 			}
 			for _, kind := range []string{"creating", "writing", "accessing", "custom"} {
 				for _, ref := range []string{"", "writing", "creating"} {
-					if !thorough && ref == "writing" && kind != "writing" && kind != "custom" {
+					if !thorough && ref == "writing" && kind == "accessing" {
 						continue
 					}
 					if ref == "creating" && kind != "writing" && !(thorough && kind == "creating") {
